@@ -1,9 +1,9 @@
 """C18 — PEAK chunk data and the signal-max commands equal the true maxima."""
 import os
 from .. import c18lib as L
-from ..core import Violation, VERIF
+from ..core import Violation, VERIF, modules_for
 
-MODULES = ["SfProps.C18"]
+MODULES = modules_for("C18")
 
 
 def _witness(ctx, kf):
